@@ -173,7 +173,7 @@ class Resolver:
             cls_qual = None
             p = getattr(fn, "_parent", None)
             if isinstance(p, ast.ClassDef):
-                cls_qual = f"{mi.name}.{p.name}"
+                cls_qual = self.repo.canonical(f"{mi.name}.{p.name}", p)
             for node in ast.walk(fn):
                 if not isinstance(node, ast.Call):
                     continue
